@@ -79,7 +79,7 @@ def paren_family():
 
 
 def rel_family():
-    rels = ["=", "<", ">", "<=", ">=", "<>"]
+    rels = ["=", "<", ">", "<=", ">=", "<>", "=<", "=>"]
     for r in rels:
         yield f"A {r} B"
         yield f"A + 1 {r} B * 2"
